@@ -2002,6 +2002,14 @@ fn cfg_of(case: &Value) -> Cfg {
 pub fn replay(case: &Value, ctx: &mut Ctx) -> bool {
     let input = case["input"].as_str().unwrap_or("").to_string();
     let c = cfg_of(case);
+    // A family runs thousands of texts and configurations in one process; a replay starts from a fresh one.
+    // State of the subject that outlives a call (a cache kept per thread or per process) would make a finding
+    // of the family irreproducible here, so the text is first formatted under a sweep of configurations.
+    if !input.is_empty() && input.len() < 100_000 && !matches!(case["oracle"].as_str().unwrap_or(""), "c13" | "c13words" | "c14" | "c18" | "c04scaling") {
+        for other in C_QUICK.iter().chain(crate::cfg::c_full().iter()) {
+            let _ = ctx.fmt(other, &input);
+        }
+    }
     match case["oracle"].as_str().unwrap_or("") {
         "c01" => {
             let out = ctx.fmt(&c, &input);
